@@ -356,6 +356,75 @@ func c09AfterHelpers(elems int, dotu bool, P int) Scenario {
 	return vsScenario(&VsSpec{Name: name, Body: body, Check: check, P: P, Delay: true})
 }
 
+// c09AfterNonblocking: the public non-blocking path (ReqAlloc, Rpcnb, a completion
+// channel the caller shares between its requests, ReqFree) recycles request slots too.
+// After it, concurrent blocking calls still get their own replies.
+func c09AfterNonblocking(n int, dotu bool, P int) Scenario {
+	var peer *Peer
+	var res []*callRes
+	var setupErr string
+	name := fmt.Sprintf("calls-after-nonblocking-requests n=%d dotu=%v", n, dotu)
+	body := func() {
+		setupErr = ""
+		c, pr := newClientPair(8192, dotu)
+		peer = pr
+		shared := make(chan *go9p.Req, n)
+		var rs []*go9p.Req
+		for i := 0; i < n; i++ {
+			r := c.ReqAlloc()
+			r.Tc = c.NewFcall()
+			if err := go9p.PackTstat(r.Tc, uint32(200+i)); err != nil {
+				setupErr = err.Error()
+				return
+			}
+			r.Done = shared
+			if err := c.Rpcnb(r); err != nil {
+				setupErr = err.Error()
+				return
+			}
+			rs = append(rs, r)
+		}
+		for i := 0; i < n; i++ {
+			if r := vs.Recv(shared); r.Err != nil {
+				setupErr = fmt.Sprintf("non-blocking request failed: %v", r.Err)
+				return
+			}
+		}
+		for _, r := range rs {
+			c.ReqFree(r)
+		}
+		peer.Seen = nil
+		peer.Batch = 3
+		peer.BatchOnce = true
+		res = make([]*callRes, 3)
+		vs.Window(true)
+		for i := 0; i < 3; i++ {
+			i := i
+			vs.Go("caller", func() { res[i] = doCall(c, callSpec{[]string{"read", "stat", "write"}[i], uint32(300 + i)}) })
+		}
+		vs.Idle()
+		vs.Window(false)
+	}
+	check := stdCheck("C09", func(x *vs.Exec) *Viol {
+		if setupErr != "" {
+			return &Viol{Sig: "C09/nonblocking-failed/" + sigWords(setupErr), Msg: setupErr}
+		}
+		if peer.Dup != "" {
+			return &Viol{Sig: "C09/tag-reused-while-outstanding/after-nonblocking", Msg: peer.Dup}
+		}
+		for i, r := range res {
+			if r == nil || !r.done {
+				return &Viol{Sig: "C09/call-never-returned/after-nonblocking", Msg: fmt.Sprintf("call %d never returned after %d non-blocking requests sharing a completion channel (parked %v; the peer saw %v)", i, n, x.Parked, peer.Seen)}
+			}
+			if msg := r.verify("ok", dotu, nil); msg != "" {
+				return &Viol{Sig: "C09/" + sigWords(msg) + "/after-nonblocking", Msg: fmt.Sprintf("call %d (%s fid %d) after %d non-blocking requests sharing a completion channel: %s (the peer saw %v)", i, r.spec.Kind, r.spec.Fid, n, msg, peer.Seen)}
+			}
+		}
+		return nil
+	}, nil)
+	return vsScenario(&VsSpec{Name: name, Body: body, Check: check, P: P, Delay: true})
+}
+
 // pipelined Tag interface: requests sharing a tag complete in the order issued
 func c09TagScenario(n int, dotu bool, P int) Scenario {
 	var got []string
@@ -534,6 +603,7 @@ func c09Scenarios(tier string) []Scenario {
 	}
 	out = append(out, c09TwoClients(false, true, 1), c09TwoClients(true, false, 1))
 	out = append(out, c09AfterHelpers(3, true, 1), c09AfterHelpers(17, false, 1), c09AfterHelpers(40, true, 1))
+	out = append(out, c09AfterNonblocking(1, false, 1), c09AfterNonblocking(3, true, 1))
 	// two calls per caller (request slots and Fcalls recycled between calls)
 	out = append(out, c09Scenario(c09Params{Calls: [][]callSpec{{{"read", 10}, {"stat", 11}}, {{"write", 20}, {"read", 21}}}, Kinds: []string{"ok", "error", "ok", "ok"}, Order: []int{1, 0}, Dotu: true, P: P}))
 	out = append(out, c09Scenario(c09Params{Calls: [][]callSpec{{{"read", 10}, {"read", 11}}, {{"read", 20}}}, Kinds: nil, Order: []int{0, 1}, OneWrite: true, P: P}))
